@@ -202,7 +202,7 @@ func judgeHooks(sc *Scenario, x *vrt.Execution) []verdict {
 }
 
 func hookUnits(res *common.Result, each func(Scenario, int) bool) bool {
-	shapes := []string{"plain", "hooks", "cond", "fail"}
+	shapes := []string{"plain", "hooks", "cond", "fail", "condfalse", "beforefail"}
 	mkTask := func(name, shape, ctx string) TaskCfg {
 		t := TaskCfg{Name: name, Cmds: []string{name + ".c1"}, Ctx: ctx, FailAt: -1}
 		switch shape {
@@ -212,6 +212,10 @@ func hookUnits(res *common.Result, each func(Scenario, int) bool) bool {
 			t.Cond = "true"
 		case "fail":
 			t.FailAt = 0
+		case "condfalse": // the task is skipped: its context's before and after hooks still pair up
+			t.Cond = "false"
+		case "beforefail": // the task's own before hook fails: no command runs, the context's after hook still does
+			t.Before, t.BeforeFail = []string{name + ".b"}, true
 		}
 		return t
 	}
